@@ -11,7 +11,7 @@ def bad(what, **case): viol.append(dict(case, what=what))
 def gen_op(text, step, scoped_ok):
     paths = existing_paths(text); r = R.random()
     leaf_paths = [p for p in paths]
-    if r < 0.06: return ('set', R.choice(BADPATHS), '1'), 'badpath'
+    if r < 0.08: return (('set', R.choice(BADPATHS), '1') if R.random() < 0.6 else ('rm', R.choice(BADPATHS))), 'badpath'
     if r < 0.12: return ('set', pstr(R.choice(paths)) if paths else 'k', R.choice(BADVALUES)), 'badvalue'
     if scoped_ok and r < 0.30:
         d = R.choice([1, 1, 1, 2, 3]); nm = R.choice(LAYER_NAMES + ['z%d' % step])
@@ -64,6 +64,7 @@ def run_C08():
             count('%s/%s/%s' % (op[0], kind, res[0] if res[0] == 'ok' else res[1]))
             ops.append(op); trace.append(res)
             if res[0] == 'ok':
+                if kind == 'badpath': bad('a malformed path is accepted instead of refused', doc=text, ops=ops[:], out=res[1]); break
                 if kind == 'through_inherited': bad('an edit whose path runs through an inherited (non-set) name is accepted instead of refused', doc=text, ops=ops[:], out=res[1]); break
                 cur = res[1]; continue
             case = dict(doc=text, ops=ops[:], failing=op, error=res[1:])
@@ -191,7 +192,7 @@ def run_C09():
     for it in range(N):
         shape = R.choice(['bare', 'lambda_formals', 'lambda_id', 'paren'])
         n = R.randrange(0, 4); layers = gen_layers(R, n)
-        body = R.choice(['{\n  x = 1;\n  y = [\n    1\n  ];\n}', '{\n  x = 1;\n  v = 0;\n  a = "body";\n}'])
+        body = R.choice(['{\n  x = 1;\n  y = [\n    1\n  ];\n}', '{\n  x = 1;\n  v = 0;\n  a = "body";\n}', '{\n  inherit w src;\n  x = 1;\n}', '{\n  inherit (pkgs) v;\n  x = 1;\n}'])         # the last two only INHERIT names that scoped edits use: the let layer is still what `@name` addresses
         body_keys = ('v', 'a') if 'v = 0' in body else ()
         jt = [R.choice(['# joint %d\n' % i, '/* j%d */\n' % i]) if R.random() < 0.3 else '' for i in range(n)]
         inner = let_text(layers, body, jt)
